@@ -717,6 +717,56 @@ def check_addressing(t, rows, cols, m, rng, n_samples):
     return out, st
 
 
+def enc_key(key):
+    hx = lambda t: hexs(t) if t else '-'
+    if isinstance(key, int):
+        return 'i:%d' % key
+    if isinstance(key, (list, tuple)):
+        return 'n:' + ';'.join(hx(x) for x in key)
+    return 'n:' + hx(key)
+
+
+def canon_got(v):
+    """canonical form of what table[key] returned"""
+    import numpy as np
+    if v is None:
+        return ['none']
+    if isinstance(v, dict):
+        k = v.get('key')
+        return ['row', list(k) if isinstance(k, tuple) else [k], [[c, bits(x)] for c, x in v.items() if c != 'key']]
+    return ['col', [bits(x) for x in np.asarray(v, dtype=float)]]
+
+
+def sample_lookups(lst, view, rng):
+    """table[key] for a spread of keys (row index incl. negative / out of range, row name, reversed name, column
+    name, names that are not there), on the real tables: [(table, encoded key, canonical result)]"""
+    out = []
+    for name in lst.table_names:
+        t = table_of(lst, name)
+        rows, cols, m = view[3][name]
+        nr = len(rows)
+        keys = [0, nr - 1, -1, -nr, nr, -nr - 1]
+        if nr:
+            for _ in range(2):
+                keys.append(rows[rng.randrange(nr)])
+            r = rows[rng.randrange(nr)]
+            keys.append(r[::-1])                          # reversed tuple (connection) or reversed string
+            if isinstance(r, tuple):
+                keys.append(r[0])                         # a single name on a two-key table
+                keys.append((r[0], 'zzzzz'))
+            else:
+                keys.append('zzzzz')
+        if cols:
+            keys.append(cols[rng.randrange(len(cols))])
+        for k in keys:
+            try:
+                got = canon_got(t[k])
+            except Exception as e:
+                got = ['exc', type(e).__name__]
+            out.append([name, enc_key(k), got])
+    return out
+
+
 def job_c05(job):
     """runs in a worker: open one (variant of a) listing with the real reader, compare every exposed table at the
     chosen result times with the printed rows, check skip-table independence and addressing.
@@ -785,6 +835,8 @@ def job_c05(job):
             st.update(s2)
             for (kind, text, detail) in vs:
                 viol('%s:%s' % (kind, family), 'result %d, table %s: %s' % (i, name, text), index=i, table=name, **detail)
+        if job.get('dump'):
+            res.setdefault('addr', {})[i] = sample_lookups(lst, view, rng)
         if len(res['samples']) < 1 and lst.table_names:
             name = lst.table_names[0]
             rows, cols, m = view[3][name]
@@ -967,7 +1019,8 @@ class Timeout:
 # ====================================================================== property module interface
 
 THEOREMS = ['Props.C05.' + t for t in ['column_boundaries_correct', 'row_slicing_correct', 'field_value_printed', 'blank_field_is_zero',
-                                    'field_beyond_row_is_zero', 'line_terminator_ignored', 'autough2_row_split_correct',
+                                    'field_beyond_row_is_zero', 'line_terminator_ignored', 'row_format_decidable',
+                                    'rows_keyed_by_printed_index', 'rows_in_index_order', 'autough2_row_split_correct',
                                     'autough2_adjacent_numbers_merge', 'addressing_agrees', 'reversed_key_row']]
 LEVEL_TEXT = ''
 LEVEL_NOTE = ''
@@ -1041,6 +1094,9 @@ FIXED_VARIANTS = [
     # TOUGH2/11 prints a 'primary' table only at its last result time; generation rows are constant in time in the
     # shipped file, so only a perturbed copy shows whether the table after it is re-read (fixed in /repo 159f0ee)
     ('TOUGH2/11/case11.listing', {'kind': 'perturb', 'seed': 11, 'frac': 0.3, 'modes': ['digits', 'neg', 'zero'], 'first_rows': False}),
+    # TOUGH2/10 is the shipped file whose first columns are printed without exponent: a negative second value in the first
+    # row made start_of_values take its sign for an exponent sign (every cell of the first column wrong)
+    ('TOUGH2/10/case10.listing', {'kind': 'perturb', 'seed': 363380031, 'frac': 0.6, 'modes': ['neg', 'zero', 'digits'], 'first_rows': False}),
 ]
 SAFE_MODES = ['digits', 'zero']      # same layout as the original: the reader cannot refuse these
 
@@ -1054,7 +1110,8 @@ def run(ctx):
     fam_of = dict(corpus())
     for rel, vs in FIXED_VARIANTS:
         if rel in fam_of:
-            jobs.append(dict(rel=rel, family=fam_of[rel], vspec=vs, tmp=str(ctx.tmp), indices='all', skips=[['connection'], ['element', 'generation']],
+            jobs.append(dict(rel=rel, family=fam_of[rel], vspec=vs, tmp=str(ctx.tmp), indices='all',
+                             skips=[['connection'], ['element', 'generation']] if 'case11' in rel else [],
                              seed=1, dump=ctx.model_ok, addr_samples=12))
     results = run_jobs('job_c05', jobs, timeout=ctx.n(120, 600))
     # floor of accepted variants per file: a variant the reader refuses at open says nothing about the tables
@@ -1136,28 +1193,56 @@ def bit_equal(a, b):
     return bool(np.all((ai == bi) | (np.isnan(a) & np.isnan(b))))
 
 
+def parse_got(line):
+    w = line.split(' ')
+    if w[0] == 'exc':
+        return ['exc', w[1]]
+    if w[:2] == ['ok', 'none']:
+        return ['none']
+    unhex = lambda h: '' if h == '-' else bytes.fromhex(h).decode('latin-1')
+    if w[:2] == ['ok', 'col']:
+        return ['col', [bits(float(x)) for x in w[2:]]]
+    if w[:2] == ['ok', 'row']:
+        key = [unhex(x) for x in w[2].split(',')]
+        cells = {}
+        for x in w[3:]:
+            c, v = x.split('=')
+            cells[unhex(c)] = bits(float(v))
+        return ['row', key, [[c, v] for c, v in cells.items()]]
+    raise RuntimeError('driver addr: %s' % line[:200])
+
+
 def model_views(requests):
-    """requests: list of (path, skip list, [indices]); one driver process; returns per request either
-    ('exc', class) or ('ok', {index: view or ('exc', class)})"""
+    """requests: list of (path, skip list, [indices], {index: [(table, encoded key)]}); one driver process; returns per
+    request ('exc', class) or ('ok', {index: view or ('exc', class)}, info line, {index: [parsed lookups]})"""
     lines = []
-    for path, skip, indices in requests:
+    for path, skip, indices, lookups in requests:
         od = '1' if str(path).endswith('OUTPUT_DATA') else '0'
         lines.append('open %s %s %s' % (hexs(str(path)), od, ','.join(skip) if skip else '-'))
+        lines.append('info')
         for i in indices:
             lines.append('index %d' % i)
             lines.append('view')
+            for (tn, k) in lookups.get(i, []):
+                lines.append('addr %s %s' % (tn, k))
     out = core.run_driver('drv_c05', lines)
     k = 0
     res = []
-    for path, skip, indices in requests:
-        o = out[k]; k += 1
-        views = {}
+    for path, skip, indices, lookups in requests:
+        o = out[k]; info = out[k + 1]; k += 2
+        views, looks = {}, {}
         for i in indices:
             a, b = out[k], out[k + 1]; k += 2
             if o.startswith('ok'):
                 views[i] = parse_view(b) if a.startswith('ok') else ('exc', a.split()[1] if a.startswith('exc') else a)
+            ls = []
+            for _ in lookups.get(i, []):
+                if o.startswith('ok') and a.startswith('ok'):
+                    ls.append(parse_got(out[k]))
+                k += 1
+            looks[i] = ls
         if o.startswith('ok'):
-            res.append(('ok', views))
+            res.append(('ok', views, info, looks))
         elif o.startswith('exc'):
             res.append(('exc', o.split()[1]))
         else:
@@ -1194,14 +1279,30 @@ def correspond(ctx, res, jobs, results):
         if isinstance(r, Timeout):
             continue
         if r.get('rejected'):
-            reqs.append((r['path'], [], []))
+            reqs.append((r['path'], [], [], {}))
             owners.append((job, r, 'rejected'))
         elif r.get('dumps'):
-            reqs.append((r['path'], [], [i for i, _ in r['dumps']]))
+            looks = {i: [(tn, k) for (tn, k, got) in v] for i, v in (r.get('addr') or {}).items()}
+            reqs.append((r['path'], [], [i for i, _ in r['dumps']], looks))
             owners.append((job, r, 'views'))
     outs = run_model_parallel(reqs)
-    for (job, r, kind), (path, skip, indices), o in zip(owners, reqs, outs):
+    fa = res.facet('listing_addressing')
+    hyp_rf = res.hyp.setdefault('RowFormat: side conditions of column_boundaries_correct hold for the line the columns of a TOUGH2-family table were inferred from (rowFormatB, sound by row_format_decidable)', [0, 0])
+    hyp_names = res.hyp.setdefault('distinct row names (hypothesis hname of addressing_agrees holds for every row)', [0, 0])
+    for (job, r, kind), (path, skip, indices, looks), o in zip(owners, reqs, outs):
         case = dict(file=job['rel'], variant=job['vspec'])
+        if o[0] == 'ok':
+            for w in o[2].split(' '):
+                if w.startswith('RF=') and w != 'RF=-':
+                    hyp_rf[1] += 1
+                    hyp_rf[0] += w == 'RF=1'
+            for i, ls in o[3].items():
+                for (tn, k, got), mg in zip((r.get('addr') or {}).get(i, []), ls):
+                    fa['cases'] += 1
+                    res.count('model:lookups:' + got[0])
+                    if got != mg:
+                        fa['disagreements'] += 1
+                        res.disagreements.append(dict(facet='listing_addressing', case=dict(case, index=i, table=tn, key=k), model=json.dumps(mg)[:160], impl=json.dumps(got)[:160]))
         if kind == 'rejected':
             f['cases'] += 1
             res.count('model:rejected-variants-compared')
@@ -1234,6 +1335,9 @@ def correspond(ctx, res, jobs, results):
                     r1, c1, m1 = mv[3][name]
                     r2, c2_, m2 = real[3][name]
                     res.count('model:cells-compared', int(m2.size))
+                    if job['vspec'].get('kind', 'orig') == 'orig' and i == indices[0]:
+                        hyp_names[1] += 1
+                        hyp_names[0] += len(set(r2)) == len(r2)
                     if r1 != r2: d = 'table %s: row names differ (model %d rows, impl %d)' % (name, len(r1), len(r2)); break
                     if c1 != c2_: d = 'table %s: column names differ: %r vs %r' % (name, c1, c2_); break
                     if not bit_equal(m1, m2):
